@@ -166,7 +166,7 @@ CLAIMS = [
                       "acceptance) and F30 (substitution rewrote a shadowed witness) were found by a seeding agent on the unchanged tree and "
                       "repaired, as were F40-F43 of round 3 (crash on a computation as constructor argument, wildcard at a computation type, "
                       "sealed product given away by the tuple judgment, monadic block ignoring analysis mode), each now guarded by its own "
-                      "rule; the normalisation traces alarm on any semantic edit of normalize.rs's spine code.",
+                      "rule; the normalisation traces alarm on any semantic edit of normalize.rs's spine code. Round 4: an inventory of the places where a judgment opens a `def` seal (a new one is reported), and the copattern elaborator takes Arrow / Forall / PackPi from the type as written (F69: `{ comatch | x => .. } : Thk F` was accepted at a sealed arrow; repaired).",
     },
     {
         "id": "C07",
